@@ -331,6 +331,9 @@ type JSONMember1 struct{ Name Str }
 // JSONNum is a JSON number member value.
 type JSONNum struct{ V float64 }
 
+// JSONArr is a JSON array member value whose elements are JSON strings (Str), numbers (JSONNum), booleans (bool) or null (nil).
+type JSONArr struct{ Vals []Value }
+
 // ModelDecode applies the flat-object model of encoding/json directly (no UnmarshalJSON method involved) to a zero value of
 // the struct type T: what plain encoding/json makes of the document.
 func (m *Machine) ModelDecode(obj JSONObj, T types.Type) (Value, Value) {
@@ -431,6 +434,31 @@ func (m *Machine) decodeMember(v Value, ft types.Type) (Value, Value) {
 			return nil, mkErr(Lit("json: cannot unmarshal number into Go value of type " + t.String()))
 		}
 		return dec(ft)
+	case JSONArr:
+		// an array into []interface{}: every element as encoding/json produces it (string, float64, bool, nil)
+		st, ok := ft.Underlying().(*types.Slice)
+		if !ok {
+			return nil, mkErr(Lit("json: cannot unmarshal array into Go value of type " + ft.String()))
+		}
+		if _, isIface := st.Elem().Underlying().(*types.Interface); !isIface {
+			panic(m.undecided("json model: array member into %s", ft))
+		}
+		var vs []Value
+		for _, e := range x.Vals {
+			switch ev := e.(type) {
+			case nil:
+				vs = append(vs, Iface{})
+			case Str:
+				vs = append(vs, Iface{T: types.Typ[types.String], V: ev})
+			case JSONNum:
+				vs = append(vs, Iface{T: types.Typ[types.Float64], V: ev.V})
+			case bool:
+				vs = append(vs, Iface{T: types.Typ[types.Bool], V: ev})
+			default:
+				panic(m.undecided("json model: array element %T", e))
+			}
+		}
+		return m.NewSliceOf(st.Elem(), vs...), nil
 	case JSONMember1:
 		mt, ok := ft.Underlying().(*types.Map)
 		if !ok {
